@@ -21,7 +21,7 @@ use std::time::{Duration, Instant};
 
 /// the three `...State` steps only re-label the syscall sub-state the coroutine is in (what the hooks do
 /// around a wait); they are legal between SyscallEnter and SyscallExit only
-pub const STEPS: [&str; 7] = ["Compute", "Yield", "SyscallEnter", "SyscallExit", "SyscallSuspendState", "SyscallCallbackState", "SyscallTimeoutState"];
+pub const STEPS: [&str; 8] = ["Compute", "Yield", "SyscallEnter", "SyscallExit", "SyscallSuspendState", "SyscallCallbackState", "SyscallTimeoutState", "SyscallWait"];
 
 #[derive(Clone, Debug)]
 pub struct Case {
@@ -30,17 +30,20 @@ pub struct Case {
     /// deliver SIGURG to coroutine `.0` before its step `.1`, for every entry (empty = reference run)
     sig: Vec<(usize, usize)>,
     live: bool,
+    /// live run no. 2: a coroutine blocked in a plain, restartable kernel call when its slice ends
+    live_read: bool,
 }
 
 impl Case {
     fn to_json(&self) -> Value {
-        json!({"programs": self.progs.iter().map(|p| p.iter().map(|s| STEPS[*s]).collect::<Vec<_>>()).collect::<Vec<_>>(), "signals_before": self.sig.iter().map(|(c, k)| json!({"coroutine": c, "step": k})).collect::<Vec<_>>(), "live": self.live})
+        json!({"programs": self.progs.iter().map(|p| p.iter().map(|s| STEPS[*s]).collect::<Vec<_>>()).collect::<Vec<_>>(), "signals_before": self.sig.iter().map(|(c, k)| json!({"coroutine": c, "step": k})).collect::<Vec<_>>(), "live": self.live, "live_blocking_read": self.live_read})
     }
     fn from_json(v: &Value) -> Option<Case> {
         Some(Case {
             progs: v.get("programs")?.as_array()?.iter().map(|p| p.as_array().map(|a| a.iter().filter_map(|s| STEPS.iter().position(|x| Some(*x) == s.as_str())).collect())).collect::<Option<Vec<Vec<usize>>>>()?,
             sig: v.get("signals_before").and_then(Value::as_array).map(|a| a.iter().map(|s| (s["coroutine"].as_u64().unwrap_or(0) as usize, s["step"].as_u64().unwrap_or(0) as usize)).collect()).unwrap_or_default(),
             live: v.get("live").and_then(Value::as_bool).unwrap_or(false),
+            live_read: v.get("live_blocking_read").and_then(Value::as_bool).unwrap_or(false),
         })
     }
 }
@@ -63,7 +66,7 @@ fn valid(p: &[usize]) -> bool {
                 in_sys = false;
             }
             "Yield" if in_sys => return false,
-            "SyscallSuspendState" | "SyscallCallbackState" | "SyscallTimeoutState" if !in_sys => return false,
+            "SyscallSuspendState" | "SyscallCallbackState" | "SyscallTimeoutState" | "SyscallWait" if !in_sys => return false,
             _ => {}
         }
     }
@@ -91,14 +94,15 @@ fn programs(max_len: usize) -> Vec<Vec<usize>> {
 struct Run {
     results: Vec<(usize, String)>,
     /// per coroutine: (state at the moment of the signal, number of Running->Suspend reports)
-    state_at_signal: Vec<(usize, String)>,
+    /// (coroutine, the library's state, is the body between SyscallEnter and SyscallExit?)
+    state_at_signal: Vec<(usize, String, bool)>,
     suspends: Vec<usize>,
     report_violation: Option<(String, String)>,
 }
 
 fn run_once(c: &Case) -> Run {
     let mut sched = Scheduler::new("c22-sched".into(), 128 * 1024);
-    let at_signal: Arc<Mutex<Vec<(usize, String)>>> = Arc::new(Mutex::new(Vec::new()));
+    let at_signal: Arc<Mutex<Vec<(usize, String, bool)>>> = Arc::new(Mutex::new(Vec::new()));
     let mut reports: Vec<Arc<Mutex<Vec<Rep>>>> = Vec::new();
     let mut ids = Vec::new();
     for (i, prog) in c.progs.iter().enumerate() {
@@ -107,10 +111,11 @@ fn run_once(c: &Case) -> Run {
             Some(format!("c22-{i}")),
             move |s: &Suspender<(), ()>, ()| {
                 let mut acc = 17usize + i;
+                let mut in_sys = false;
                 let me = || SchedulableCoroutine::current().expect("current");
                 for (k, st) in prog.iter().enumerate().chain(std::iter::once((prog.len(), &usize::MAX))) {
                     if sig.contains(&(i, k)) {
-                        ats.lock().unwrap().push((i, state_str(&me().state())));
+                        ats.lock().unwrap().push((i, state_str(&me().state()), in_sys));
                         // the preemption signal arrives exactly here
                         unsafe { libc::pthread_kill(libc::pthread_self(), libc::SIGURG) };
                     }
@@ -120,13 +125,23 @@ fn run_once(c: &Case) -> Run {
                     match STEPS[*st] {
                         "Compute" => acc = acc.wrapping_mul(31).wrapping_add(k),
                         "Yield" => s.suspend(),
-                        "SyscallEnter" => me().syscall((), SyscallName::read, SyscallState::Executing).expect("enter"),
+                        "SyscallEnter" => {
+                            in_sys = true;
+                            me().syscall((), SyscallName::read, SyscallState::Executing).expect("enter");
+                        }
+                        "SyscallWait" => {
+                            // what a hooked call does when it has to wait: park in the syscall, come back
+                            let t = open_coroutine_core::common::now();
+                            me().syscall((), SyscallName::read, SyscallState::Suspend(t)).expect("park");
+                            s.until(t);
+                        }
                         "SyscallSuspendState" => me().syscall((), SyscallName::read, SyscallState::Suspend(u64::MAX)).expect("sub-state"),
                         "SyscallCallbackState" => me().syscall((), SyscallName::read, SyscallState::Callback).expect("sub-state"),
                         "SyscallTimeoutState" => me().syscall((), SyscallName::read, SyscallState::Timeout).expect("sub-state"),
                         _ => {
                             me().syscall((), SyscallName::read, SyscallState::Executing).expect("back to executing");
                             me().running().expect("exit");
+                            in_sys = false;
                         }
                     }
                 }
@@ -197,7 +212,42 @@ fn live_run() -> Value {
     json!({"results": results})
 }
 
+fn live_read_run() -> Value {
+    // the coroutine blocks in read(2) on a pipe whose byte arrives after 150 ms; the real monitor
+    // preempts it (it is Running) every slice; the interrupted call must simply go on afterwards
+    let mut fds = [0; 2];
+    assert_eq!(0, unsafe { libc::pipe(fds.as_mut_ptr()) });
+    let (rfd, wfd) = (fds[0], fds[1]);
+    let helper = std::thread::spawn(move || {
+        std::thread::sleep(Duration::from_millis(150));
+        let b = [7u8];
+        let _ = unsafe { libc::write(wfd, b.as_ptr().cast(), 1) };
+    });
+    let mut sched = Scheduler::new("c22-live-read".into(), 128 * 1024);
+    let _ = sched.submit_co(move |_, ()| {
+        let mut b = [0u8; 1];
+        let r = unsafe { libc::read(rfd, b.as_mut_ptr().cast(), 1) };
+        Some(if r == 1 { 42 } else { 1000 + std::io::Error::last_os_error().raw_os_error().unwrap_or(0) as usize })
+    }, None, None).expect("reader");
+    let t0 = Instant::now();
+    let mut results = Vec::new();
+    while results.is_empty() && t0.elapsed() < Duration::from_secs(8) {
+        if let Ok((_, rs)) = sched.try_timed_schedule(Duration::from_millis(200)) {
+            for (_, r) in rs {
+                results.push(match r { Ok(v) => format!("Ok({v:?})"), Err(m) => format!("Err({m})") });
+            }
+        }
+    }
+    let _ = helper.join();
+    std::mem::forget(sched);
+    json!({"results": results})
+}
+
 pub fn exec(c: &Case, em: &mut Emitter) {
+    if c.live_read {
+        em.emit(json!({"t":"live_read","out": live_read_run()}));
+        return;
+    }
     if c.live {
         em.emit(json!({"t":"live","out": live_run()}));
         return;
@@ -205,11 +255,11 @@ pub fn exec(c: &Case, em: &mut Emitter) {
     // the arrival-point runs own every signal: under a frozen virtual clock the real monitor thread
     // never finds a coroutine overdue, however long this process is descheduled
     open_coroutine_core::verif::clock_enable(1_700_000_000_000_000_000);
-    let reference = run_once(&Case { progs: c.progs.clone(), sig: vec![], live: false });
+    let reference = run_once(&Case { progs: c.progs.clone(), sig: vec![], live: false, live_read: false });
     let with = run_once(c);
     em.emit(json!({"t":"end","reference": reference.results.iter().map(|(w, r)| json!([w, r])).collect::<Vec<_>>(),
         "with_signal": with.results.iter().map(|(w, r)| json!([w, r])).collect::<Vec<_>>(),
-        "state_at_signal": with.state_at_signal.iter().map(|(w, st)| json!([w, st])).collect::<Vec<_>>(), "suspends_reference": reference.suspends, "suspends_with_signal": with.suspends,
+        "state_at_signal": with.state_at_signal.iter().map(|(w, st, sys)| json!([w, st, sys])).collect::<Vec<_>>(), "suspends_reference": reference.suspends, "suspends_with_signal": with.suspends,
         "report_violation": with.report_violation.map(|(c, d)| json!([c, d]))}));
 }
 
@@ -217,6 +267,15 @@ pub fn judge(c: &Case, res: &ChildResult, rep: &mut Report) {
     let replay = || json!({"engine":"seqx-pre","scenario":"c22.arrival","case":c.to_json()});
     if !res.exit.ok() {
         rep.violation(&format!("c22.arrival/process-survives/{}", res.exit.describe()), format!("{}: the process {}", c.to_json(), res.exit.describe()), replay());
+        return;
+    }
+    if c.live_read {
+        let Some(l) = res.last("live_read") else { return };
+        if l["out"]["results"] != json!(["Ok(Some(42))"]) {
+            rep.violation("c22.arrival/preemption-never-changes-results/live:blocking-kernel-call", format!("a coroutine blocked in a plain read(2) while the real monitor preempts it: result {} (Ok(Some(42)) = the byte arrived; 1000+n = the call failed with errno n)", l["out"]["results"]), replay());
+        } else {
+            rep.witness("live_preempted_blocking_call_resumed");
+        }
         return;
     }
     if c.live {
@@ -249,8 +308,14 @@ pub fn judge(c: &Case, res: &ChildResult, rep: &mut Report) {
     }
     let class = if c.sig.len() > 1 { "second-signal-while-a-preempted-coroutine-is-parked" } else { "-" };
     for who in 0..c.progs.len() {
-        let running_hits = hits.iter().filter(|h| h[0].as_u64() == Some(who as u64) && h[1] == "Running").count() as i64;
-        let sys_hits: Vec<&str> = hits.iter().filter(|h| h[0].as_u64() == Some(who as u64) && h[1].as_str().is_some_and(|s| s.starts_with("Syscall"))).filter_map(|h| h[1].as_str()).collect();
+        // what counts is where the BODY is (between SyscallEnter and SyscallExit or not), not how the
+        // library happens to label the coroutine at that moment
+        if let Some(h) = hits.iter().find(|h| h[0].as_u64() == Some(who as u64) && h[2] == true && h[1] == "Running") {
+            rep.violation("c22.arrival/coroutine-in-syscall-is-never-preempted/labelled-running-inside-a-syscall", format!("{}: coroutine {who} is inside a system call (entered, waited, not left yet) but the runtime has it in state {}: the preemption signal is let through", c.to_json(), h[1]), replay());
+            return;
+        }
+        let running_hits = hits.iter().filter(|h| h[0].as_u64() == Some(who as u64) && h[2] == false).count() as i64;
+        let sys_hits: Vec<&str> = hits.iter().filter(|h| h[0].as_u64() == Some(who as u64) && h[2] == true).filter_map(|h| h[1].as_str()).collect();
         let extra = e["suspends_with_signal"][who].as_u64().unwrap_or(0) as i64 - e["suspends_reference"][who].as_u64().unwrap_or(0) as i64;
         if extra != running_hits {
             if extra > running_hits && !sys_hits.is_empty() {
@@ -274,17 +339,17 @@ pub fn judge(c: &Case, res: &ChildResult, rep: &mut Report) {
 }
 
 pub fn cases(tier: &str) -> Vec<Case> {
-    let mut v = vec![Case { progs: vec![], sig: vec![], live: true }];
+    let mut v = vec![Case { progs: vec![], sig: vec![], live: true, live_read: false }, Case { progs: vec![], sig: vec![], live: false, live_read: true }];
     let thorough = tier == "thorough";
     let one = programs(if thorough { 5 } else { 4 });
     for p in &one {
         let points: Vec<(usize, usize)> = (0..=p.len()).map(|k| (0, k)).collect();
         for (x, a) in points.iter().enumerate() {
-            v.push(Case { progs: vec![p.clone()], sig: vec![*a], live: false });
+            v.push(Case { progs: vec![p.clone()], sig: vec![*a], live: false, live_read: false });
             // two signals for the shorter programs
             if p.len() <= (if thorough { 4 } else { 3 }) {
                 for b in &points[x + 1..] {
-                    v.push(Case { progs: vec![p.clone()], sig: vec![*a, *b], live: false });
+                    v.push(Case { progs: vec![p.clone()], sig: vec![*a, *b], live: false, live_read: false });
                 }
             }
         }
@@ -295,9 +360,9 @@ pub fn cases(tier: &str) -> Vec<Case> {
             let mut points: Vec<(usize, usize)> = (0..=a.len()).map(|k| (0, k)).collect();
             points.extend((0..=b.len()).map(|k| (1, k)));
             for (x, p) in points.iter().enumerate() {
-                v.push(Case { progs: vec![a.clone(), b.clone()], sig: vec![*p], live: false });
+                v.push(Case { progs: vec![a.clone(), b.clone()], sig: vec![*p], live: false, live_read: false });
                 for q in &points[x + 1..] {
-                    v.push(Case { progs: vec![a.clone(), b.clone()], sig: vec![*p, *q], live: false });
+                    v.push(Case { progs: vec![a.clone(), b.clone()], sig: vec![*p, *q], live: false, live_read: false });
                 }
             }
         }
@@ -308,8 +373,8 @@ pub fn cases(tier: &str) -> Vec<Case> {
 pub fn run(tier: &str, rep: &mut Report) {
     let cs = cases(tier);
     rep.bounds = json!({"program_steps": STEPS, "program_len": if tier == "thorough" { "<=5 (1 coroutine), <=3 (2)" } else { "<=4 (1 coroutine), <=2 (2)" },
-        "signal_arrival": "every step boundary of every coroutine and every pair of boundaries (pairs: programs of <= 3 / 4 steps), delivered synchronously with pthread_kill(self)", "cases": cs.len(), "live_runs": 1});
-    rep.require(&["signals_in_running_state", "signals_in_syscall_state", "cases_with_two_signals", "live_monitor_preemption_seen"]);
+        "signal_arrival": "every step boundary of every coroutine and every pair of boundaries (pairs: programs of <= 3 / 4 steps), delivered synchronously with pthread_kill(self)", "cases": cs.len(), "live_runs": 2});
+    rep.require(&["signals_in_running_state", "signals_in_syscall_state", "cases_with_two_signals", "live_monitor_preemption_seen", "live_preempted_blocking_call_resumed"]);
     for c in cs.iter().step_by((cs.len() / 4).max(1)).take(4) {
         rep.sample(c.to_json());
     }
